@@ -3,14 +3,15 @@
 (* BSON 1.1 (bsonspec.org/spec.html) reference decoder as total recursive  *)
 (* operators over a byte sequence, written from the grammar of the         *)
 (* specification:                                                          *)
-(*   document ::= int32 e_list x00      int32 = total number of bytes   *)
+(*   document ::= int32 e_list x00         int32 = total number of bytes   *)
 (*   e_list   ::= element e_list | ""                                      *)
-(*   element  ::= x01 e_name double | x02 e_name string | ...        *)
+(*   element  ::= x01 e_name double | x02 e_name string | ...              *)
 (*   e_name   ::= cstring                                                  *)
-(*   string   ::= int32 (byte* ) x00     int32 = bytes in (byte* ) + 1    *)
-(*   cstring  ::= (byte* ) x00                                           *)
-(*   binary   ::= int32 subtype (byte* )    int32 = bytes in (byte* )        *)
+(*   string   ::= int32 (byte* ) x00       int32 = bytes in (byte* ) + 1   *)
+(*   cstring  ::= (byte* ) x00                                             *)
+(*   binary   ::= int32 subtype (byte* )   int32 = bytes in (byte* )       *)
 (*   code_w_s ::= int32 string document    int32 = bytes in code_w_s       *)
+(* (xNN stands for the single byte 0xNN)                                   *)
 (* and its notes (all integers little-endian; array = document whose keys  *)
 (* are "0", "1", ...; binary subtype 2 carries an inner int32).            *)
 (* Independent oracle for C07: NOT a transcription of jsoncons'            *)
